@@ -271,8 +271,19 @@ func c03Unit(name string, lvl int) core.Unit {
 					}
 				}
 			}
-			// markers
+			// markers (numbered markers also with numbers at the packed-key boundaries)
 			ms := c03Markers[name]
+			for _, m := range c03Markers[name] {
+				j := len(m.s)
+				for j > 0 && m.s[j-1] >= '0' && m.s[j-1] <= '9' {
+					j--
+				}
+				if j < len(m.s) && j > 0 {
+					for _, big := range []string{"65536", "1048576", "20240101", "4294967296"} {
+						ms = append(ms, marker{m.s[:j] + big, m.dir})
+					}
+				}
+			}
 			mvals := []string{"0", "1", "9", "10"}
 			if lvl == 0 && k >= 4 {
 				mvals = []string{"0", "1"}
